@@ -158,7 +158,15 @@ fn gen_thread_ops(r: &mut Rng, n: usize, tid: usize, counter: &mut u8) -> Vec<St
         let g = [0u8, 0, 1, 1, 2][r.below(5) as usize];
         *counter = counter.wrapping_add(1);
         let val = *counter;
-        let op = match r.below(19) {
+        let op = match r.below(27) {
+            19 => StOp::SaveWelcome { id: r.below(2) as u8, g, nostr: g, state: val % 4, wrapper: val % 4 },
+            20 => StOp::PendingWelcomes { limit: None, offset: None },
+            21 => StOp::MlsWrite { g: g % 2, kind: val % 4, val },
+            22 => StOp::MlsQueueProposal { g: g % 2, r: val % 3, val },
+            23 => StOp::MlsAppendLeaf { g: g % 2, val },
+            24 => StOp::InvalidateMessages { g, epoch: val % 3 },
+            25 => StOp::Messages { g, limit: Some(2), offset: Some(1), sort: Some(true) },
+            26 => StOp::LastMessage { g, processed_first: val % 2 == 0 },
             // two not-yet-existing groups (2 and 3) race for one new routing id (5): exactly one
             // of them may win it, in every interleaving
             16 | 17 => StOp::SaveGroup { g: 2 + r.below(2) as u8, nostr: 5, name: val % 4, epoch: val % 5, state: 0, admins: 1 + (val % 7), last: None, su: 0 },
